@@ -11,6 +11,12 @@ Decided (structural, necessary conditions for *completeness* of the search):
      except the documented TypeDef cut-off; FindNodes is pre-order;
  R4  ``Node.children`` enumerates ``_traversable`` unfiltered; generic
      ``Visitor.visit_Node`` / ``visit_tuple`` visit every child.
+ R5  "... and nothing else": the retriever behind every expression finder is a
+     *shared* object (one per finder class) with an accumulator; the accumulator
+     is emptied before every walk on every path -- the reset precedes the walk
+     in ``ExpressionRetriever.retrieve`` (or the walk sits in ``try`` with the
+     reset in ``finally``).  A reset that only follows a successful walk leaves the
+     nodes collected by an aborted search in the next result.
 Not decided: result ordering beyond pre-order of FindNodes, uniqueness keys.
 """
 import ast
@@ -268,6 +274,48 @@ def run(ctx):
         lm = model_alias_ok(m, V)
         (ctx.judge('R4', f'{vname}.visit_list') if lm else
          ctx.violation('R4', f'{vname}.visit_list', V.where, 'visit_list is not the same handler as visit_tuple'))
+    run_r5(ctx)
+
+
+def run_r5(ctx):
+    m = ctx.model
+    ctx.rule('R5', 'ExpressionRetriever.retrieve empties the accumulator before the walk on every path (reset precedes `self(expr)`, or try/finally)')
+    R = m.get_class('loki/expression/mappers.py', 'ExpressionRetriever')
+    pv, rt = R.function('post_visit'), R.function('retrieve')
+    if pv is None or rt is None:
+        raise AnalysisError('ExpressionRetriever.post_visit / retrieve vanished')
+    acc = {ast.unparse(c.func.value) for c in ast.walk(pv.node) if isinstance(c, ast.Call) and isinstance(c.func, ast.Attribute)
+           and c.func.attr in ('append', 'add', 'extend') and ast.unparse(c.func.value).startswith('self.')}
+    if len(acc) != 1:
+        raise AnalysisError(f'ExpressionRetriever.post_visit: accumulator not identified ({sorted(acc)})')
+    acc = acc.pop()
+    resetters = {name for name, mem in R.members.items() if mem.kind == 'func' and any(
+        isinstance(a, ast.Assign) and any(ast.unparse(t) == acc for t in a.targets) and isinstance(a.value, (ast.List, ast.Call, ast.Tuple))
+        and not getattr(a.value, 'elts', None) and not getattr(a.value, 'args', None) for a in ast.walk(mem.node))}
+
+    def is_reset(st):
+        if isinstance(st, ast.Expr) and isinstance(st.value, ast.Call) and (X.dotted_attr(st.value.func) or '') in {f'self.{r}' for r in resetters}:
+            return True
+        return isinstance(st, ast.Assign) and any(ast.unparse(t) == acc for t in st.targets) and isinstance(st.value, ast.List) and not st.value.elts
+
+    def is_walk(st):
+        return any(isinstance(c, ast.Call) and isinstance(c.func, ast.Name) and c.func.id == 'self' for c in ast.walk(st)) or \
+            any(isinstance(c, ast.Call) and (X.dotted_attr(c.func) or '') in ('self.rec', 'self.__call__', 'super().__call__') for c in ast.walk(st))
+    body = X.body_nodoc(rt.node)
+    widx = [i for i, st in enumerate(body) if is_walk(st)]
+    if not widx:
+        raise AnalysisError('ExpressionRetriever.retrieve: the walk `self(expr, ...)` was not found')
+    i = widx[0]
+    st = body[i]
+    before = any(is_reset(s_) for s_ in body[:i])
+    in_try = isinstance(st, ast.Try) and any(is_reset(s_) for s_ in st.finalbody)
+    if before or in_try:
+        ctx.judge('R5', 'ExpressionRetriever.retrieve:reset-before-walk', facts={'accumulator': acc, 'resetters': sorted(resetters)})
+    else:
+        ctx.violation('R5', 'ExpressionRetriever.retrieve:reset-before-walk', rt.where,
+                      f'`{acc}` is not emptied before the walk (and the walk is not protected by try/finally): the finders share one retriever '
+                      f'per class, so after a search that ended with an exception the next search with the same finder class also returns '
+                      f'the nodes the aborted one had collected -- nodes that are not in the tree it was given')
 
 
 def model_alias_ok(m, V):
@@ -277,6 +325,10 @@ def model_alias_ok(m, V):
 
 
 MUTANTS = [
+    Mutant('reset-after-walk', 'loki/expression/mappers.py', "        self.reset()\n        self(expr, *args, **kwargs)\n        return self.exprs\n",
+           "        self(expr, *args, **kwargs)\n        exprs = self.exprs\n        self.reset()\n        return exprs\n", expect=('R5', 'reset-before-walk')),
+    Mutant('neutral-reset-inline', 'loki/expression/mappers.py', "        self.reset()\n        self(expr, *args, **kwargs)\n        return self.exprs\n",
+           "        self.exprs = []\n        self(expr, *args, **kwargs)\n        return self.exprs\n", expect=None),
     Mutant('drop-traversable-field', 'loki/ir/nodes/leaf_nodes.py',
            "_traversable = ['variables', 'data_source', 'status_var']", "_traversable = ['variables', 'data_source']",
            expect=('R1', 'Allocation.status_var'), quick=True),
